@@ -673,6 +673,12 @@ func runLifeCase(c cfg, seed uint64, o lifeOpts, keys map[string]struct{}) (eval
 		}
 	}
 	// the request for shutdown may come while the above is still going on
+	var backlogPeer net.Conn
+	defer func() {
+		if backlogPeer != nil {
+			closePeer(backlogPeer)
+		}
+	}()
 	trigger := func() {
 		s.shutdownArmed.Store(true)
 		switch o.shutdownFrom {
@@ -681,11 +687,26 @@ func runLifeCase(c cfg, seed uint64, o lifeOpts, keys map[string]struct{}) (eval
 			if s.backlogMode {
 				// the request that leads to the Shutdown-returning callback is issued while > 1024 asynchronous writes
 				// are pending on the same loop
-				for _, cs := range mon.snapshot() {
-					if d, ok := cs.sc.(*lifeConn); ok && atomic.LoadInt32(&cs.state) == 1 && (d.plan == "quiet" || d.plan == "shutdown" || d.plan == "backpressure") {
-						d.backlog.Store(1)
-						_ = cs.c.Wake(nil)
-						break
+				pick := func() bool {
+					for _, cs := range mon.snapshot() {
+						if d, ok := cs.sc.(*lifeConn); ok && atomic.LoadInt32(&cs.state) == 1 && (d.plan == "quiet" || d.plan == "shutdown" || d.plan == "backpressure") {
+							d.backlog.Store(1)
+							if cs.c.Wake(nil) == nil {
+								return true
+							}
+						}
+					}
+					return false
+				}
+				if !pick() {
+					// no idle connection is left open: bring one (the peer stays open until the end of the case)
+					if conn, err := dialPeerPre(life.dialNet, life.dialAddr, &s.preArmed); err == nil {
+						key := addrKey(conn.LocalAddr().String())
+						waitCond(3*time.Second, func() bool { return mon.lookupKey(key) != nil })
+						backlogPeer = conn
+						if !pick() {
+							res.Inconc("life %s: no connection available to request the shutdown through the low-priority queue", c)
+						}
 					}
 				}
 				break
@@ -846,6 +867,27 @@ func runLifeCase(c cfg, seed uint64, o lifeOpts, keys map[string]struct{}) (eval
 			if got := int64(life.eng.CountConnections()); got != oc {
 				mon.violate("C04 CountConnections differs from opened minus closed at a quiescent point", fmt.Sprintf("CountConnections()=%d, %d opened - %d closed = %d", got, mon.opened.Load(), mon.closed.Load(), oc))
 			}
+		}
+		// quiescent point: every socket the framework accepted is either registered with a poller or closed again -
+		// a socket that is neither here can never be served (at shutdown the same state is the listed accept0 finding,
+		// which is why it is looked for before any shutdown is requested)
+		if vsys.Shimmed {
+			limbo := func() (out []vsys.FDInfo) {
+				for _, fi := range vsys.Owned() {
+					if fi.Class == "accepted" && !fi.Registered && fdIdent(fi.FD) != "" {
+						out = append(out, fi)
+					}
+				}
+				return
+			}
+			if ok, v := waitCond(3*time.Second, func() bool { return len(limbo()) == 0 }); !ok {
+				if l := limbo(); len(l) > 0 && verdictStuck(v) {
+					mon.violate("C07 accepted descriptor neither registered nor closed while the engine is idle", fmt.Sprintf("config %s: descriptor %d (accepted in %s) was never added to a poller and is still open; %s", c, l[0].FD, l[0].Site, v))
+				} else if len(l) > 0 {
+					res.Inconc("life %s: %d accepted descriptors not registered yet: %s", c, len(l), v)
+				}
+			}
+			s.key(c.class() + "|no-accepted-socket-in-limbo-before-shutdown")
 		}
 	}
 	// ---- shutdown
